@@ -24,7 +24,7 @@ CODEPOINTS = {
     "A": 0x41, "B": 0x42, "O": 0x4F, "a": 0x61, "b": 0x62, "c": 0x63, "o": 0x6F, "f": 0x66,
     "i": 0x69, "period": 0x2E, "acutecomb": 0x301, "gravecomb": 0x300, "dotbelowcomb": 0x323,
     "cedillacomb": 0x327, "alef-ar": 0x627, "beh-ar": 0x628, "fatha-ar": 0x64E,
-    "ka-deva": 0x915, "ga-deva": 0x917, "anusvara-deva": 0x902,
+    "ka-deva": 0x915, "ga-deva": 0x917, "anusvara-deva": 0x902, "nukta-deva": 0x93C,
 }
 
 
@@ -39,7 +39,7 @@ def gen_ufo(rng):
     """-> (ufo spec without features, facts) where facts names the glyph groups the feature-file
     generator may use."""
     arabic = rng.random() < 0.3
-    deva = rng.random() < 0.15
+    deva = rng.random() < 0.2
     jig = lambda v: v + rng.choice([0, 0, 10, -10, 25, 33])  # noqa: E731
     glyphs = []
     curs_pool = ["a", "b", "c", "o"]
@@ -74,9 +74,10 @@ def gen_ufo(rng):
         glyphs.append(_glyph("beh-ar.init", 400, [("top", 200, 500), ("exit", 0, 0)]))
         glyphs.append(_glyph("fatha-ar", 0, [("_top", 0, 500)]))
     if deva:
-        glyphs.append(_glyph("ka-deva", 700, [("top", 350, 700)]))
-        glyphs.append(_glyph("ga-deva", 700, [("top", 350, 700)]))
+        glyphs.append(_glyph("ka-deva", 700, [("top", 350, 700), ("bottom", 350, 0)]))
+        glyphs.append(_glyph("ga-deva", 700, [("top", 350, 700), ("bottom", jig(350), 0)]))
         glyphs.append(_glyph("anusvara-deva", 0, [("_top", 0, 700)]))
+        glyphs.append(_glyph("nukta-deva", 0, [("_bottom", 0, 0)]))
     rng.shuffle(glyphs)
     names = [g["name"] for g in glyphs]
 
@@ -347,6 +348,15 @@ def gen_fea(rng, facts, want=None, collide=None, ext_split=False, mfs=False):
         out.append("markClass acutecomb <anchor 0 %d> @%s;" % (500 if same else 480, mclass))
         if rng.random() < 0.6:
             out.append("markClass [gravecomb] <anchor 0 %d> @%s;" % (500 if same else 470, mclass))
+    # 3b. hand-written above-/below-base mark features of an Indic script (never with a marker):
+    # the mark writer generates abvm and blwm as a PAIR, either may be the user's own
+    indic = []
+    if facts["deva"] and want is None and rng.random() < 0.5:
+        indic = rng.choice([["abvm"], ["abvm"], ["blwm"], ["abvm", "blwm"]])
+        if "abvm" in indic:
+            out.append("markClass anusvara-deva <anchor 0 690> @UM_abvm;")
+        if "blwm" in indic:
+            out.append("markClass nukta-deva <anchor 0 -15> @UM_blwm;")
     # 4. top-level lookups
     gsub_top, gpos_top = [], []
     if rng.random() < 0.4:
@@ -375,6 +385,14 @@ def gen_fea(rng, facts, want=None, collide=None, ext_split=False, mfs=False):
             continue
         used_tags.add(tag)
         blocks.append(("gsub", _block("feature", tag, lines)))
+    for t in indic:
+        if t == "abvm":
+            lines = ["pos base ka-deva <anchor 350 690> mark @UM_abvm;"]
+            if rng.random() < 0.5:
+                lines.append("pos base ga-deva <anchor 340 690> mark @UM_abvm;")
+        else:
+            lines = ["pos base ga-deva <anchor 350 -15> mark @UM_blwm;"]
+        blocks.append(("gsub", _block("feature", t, lines)))     # 'gsub' = rendered as is
     plain_tags = sorted(t for t in used_tags if t not in ("aalt", "locl", "init", "ss10"))
     if plain_tags and "aalt" not in used_tags and rng.random() < 0.15:
         refs = rng.sample(plain_tags, rng.randint(1, min(2, len(plain_tags))))
@@ -435,10 +453,11 @@ def gen_fea(rng, facts, want=None, collide=None, ext_split=False, mfs=False):
         if r < 0.7:
             names = facts["names"]
             bases = [n for n in names if n not in ("f_i", "f_f") and n not in TOP_MARKS
-                     + BOTTOM_MARKS + ["fatha-ar", "anusvara-deva"]]
+                     + BOTTOM_MARKS + ["fatha-ar", "anusvara-deva", "nukta-deva"]]
             ligs = [n for n in names if n in ("f_i", "f_f")]
             marks = [n for n in names if n in TOP_MARKS + BOTTOM_MARKS + ["fatha-ar",
-                                                                         "anusvara-deva"]]
+                                                                         "anusvara-deva",
+                                                                         "nukta-deva"]]
             lines.append("GlyphClassDef [%s], [%s], [%s], ;" % (" ".join(sorted(bases)),
                                                                " ".join(sorted(ligs)),
                                                                " ".join(sorted(marks))))
@@ -453,6 +472,7 @@ def gen_fea(rng, facts, want=None, collide=None, ext_split=False, mfs=False):
         out.append(_comment(rng))
     text = "\n".join(out) + "\n"
     return text, {"plan": plan, "languagesystems": ls, "gdef": gdef is not None,
+                  "indic_hand_written": indic,
                   "n_gsub_features": sum(1 for k, _ in blocks if k == "gsub")}
 
 
